@@ -143,6 +143,11 @@ func (fr *frame) call(c *ssa.Call) Val {
 		}
 		return unknown(dep)
 	}
+	if fr.in.TextModel != nil && callee.Pkg != nil && callee.Pkg.Pkg.Path() == "strconv" && strings.HasPrefix(callee.Name(), "Format") && len(args) > 0 && !isConstVal(args[0]) {
+		if t, ok := fr.in.TextModel(c, callee, fr); ok {
+			return strVal(t)
+		}
+	}
 	if v, ok := fr.pureCall(callee, args); ok {
 		return v
 	}
@@ -429,6 +434,32 @@ func (fr *frame) writerCall(c *ssa.Call, fn *ssa.Function, args []Val) (Val, boo
 		dep = dep || a.Dep
 	}
 	switch {
+	case pkg == "strconv" && strings.HasPrefix(name, "Append") && len(args) >= 2:
+		// strconv.AppendX(dst, v, ...) is append(dst, strconv.FormatX(v, ...)...)
+		text, known := "", false
+		if fr.in.TextModel != nil && !isConstVal(args[1]) {
+			text, known = fr.in.TextModel(c, fn, fr)
+		}
+		if !known {
+			twin := "Format" + strings.TrimPrefix(name, "Append")
+			if strings.HasPrefix(name, "AppendQuote") {
+				twin = strings.TrimPrefix(name, "Append")
+			}
+			if tf := fn.Pkg.Func(twin); tf != nil {
+				if v, ok := fr.pureCall(tf, args[1:]); ok && v.K == KStr {
+					text, known = v.S, true
+				}
+			}
+		}
+		if !known {
+			fr.havocFresh(args[0])
+			return Val{}, false
+		}
+		elems := make([]Val, len(text))
+		for i := 0; i < len(text); i++ {
+			elems[i] = Val{K: KInt, I: big.NewInt(int64(text[i])), Dep: dep}
+		}
+		return fr.appendTo(c, args[0], elems), true
 	case pkg == "encoding/binary" && (recvT == "bigEndian" || recvT == "littleEndian") &&
 		(strings.HasPrefix(name, "PutUint") || strings.HasPrefix(name, "AppendUint")):
 		n := 0
@@ -1093,4 +1124,13 @@ func (fr *frame) bytesWindowCall(fn *ssa.Function, args []Val) (Val, bool) {
 		return Val{K: KNil, Dep: dep}, true
 	}
 	return Val{K: KSlice, S: s.S, Off: s.Off + lead, Len: len(res), Dep: dep}, true
+}
+
+// isConstVal: a fully known scalar.
+func isConstVal(v Val) bool {
+	switch v.K {
+	case KInt, KFloat, KBool, KStr:
+		return true
+	}
+	return false
 }
